@@ -20,6 +20,53 @@ type Cond struct {
 // (walks the dominator chain; a dominator with a single predecessor that ends
 // in an If contributes that If's condition with the polarity of the edge).
 func edgeConds(b *ssa.BasicBlock) []Cond {
+	return edgeCondsD(b, 0)
+}
+
+// expandBoolPhi: a condition held in a boolean local — `ok := a && b; if ok {…}` — is a phi of constants and one
+// computed edge; knowing the phi's value tells which edge was taken, hence that edge's value and the conditions of
+// the block it came from.
+func expandBoolPhi(c Cond, depth int) []Cond {
+	phi, ok := c.V.(*ssa.Phi)
+	if !ok || depth > 6 {
+		return nil
+	}
+	if bt, isB := phi.Type().Underlying().(*types.Basic); !isB || bt.Kind() != types.Bool {
+		return nil
+	}
+	idx := -1
+	for i, e := range phi.Edges {
+		if k, isK := e.(*ssa.Const); isK && k.Value != nil && k.Value.Kind() == constant.Bool && constant.BoolVal(k.Value) != c.Pol {
+			continue // this edge would have given the other value
+		}
+		if idx >= 0 {
+			return nil // more than one way to get this value
+		}
+		idx = i
+	}
+	if idx < 0 {
+		return nil
+	}
+	var out []Cond
+	if _, isK := phi.Edges[idx].(*ssa.Const); !isK {
+		nc := normCond(phi.Edges[idx], c.Pol)
+		out = append(out, nc)
+		out = append(out, expandBoolPhi(nc, depth+1)...)
+	}
+	pred := phi.Block().Preds[idx]
+	out = append(out, edgeCondsD(pred, depth+1)...)
+	// the edge pred -> phi block itself, when pred ends in an If
+	if len(pred.Instrs) > 0 {
+		if iff, isIf := pred.Instrs[len(pred.Instrs)-1].(*ssa.If); isIf && len(pred.Succs) == 2 && pred.Succs[0] != pred.Succs[1] {
+			nc := normCond(iff.Cond, pred.Succs[0] == phi.Block())
+			out = append(out, nc)
+			out = append(out, expandBoolPhi(nc, depth+1)...)
+		}
+	}
+	return out
+}
+
+func edgeCondsD(b *ssa.BasicBlock, depth int) []Cond {
 	var out []Cond
 	for x := b; x != nil; x = x.Idom() {
 		if len(x.Preds) != 1 {
@@ -31,9 +78,13 @@ func edgeConds(b *ssa.BasicBlock) []Cond {
 		}
 		if iff, ok := p.Instrs[len(p.Instrs)-1].(*ssa.If); ok {
 			if p.Succs[0] == x && p.Succs[1] != x {
-				out = append(out, normCond(iff.Cond, true))
+				nc := normCond(iff.Cond, true)
+				out = append(out, nc)
+				out = append(out, expandBoolPhi(nc, depth)...)
 			} else if p.Succs[1] == x && p.Succs[0] != x {
-				out = append(out, normCond(iff.Cond, false))
+				nc := normCond(iff.Cond, false)
+				out = append(out, nc)
+				out = append(out, expandBoolPhi(nc, depth)...)
 			}
 		}
 	}
@@ -341,6 +392,21 @@ func withBind(s *Stmt, f func()) {
 	if s != nil && s.Via != nil {
 		curBind = s.bind
 	}
+	defer func() { curBind = old }()
+	f()
+}
+
+// withBindMap runs f with additional parameter bindings in force (on top of the current ones).
+func withBindMap(b map[*ssa.Parameter]ssa.Value, f func()) {
+	old := curBind
+	nb := map[*ssa.Parameter]ssa.Value{}
+	for k, v := range old {
+		nb[k] = v
+	}
+	for k, v := range b {
+		nb[k] = v
+	}
+	curBind = nb
 	defer func() { curBind = old }()
 	f()
 }
